@@ -167,6 +167,14 @@ def cleanliness(prog, res):
         ok = len(cp) >= 2 and bool(mc) and f.must_pass(via_roots=mc, targets=tg) and (not md or f.must_pass(via_roots=md, targets=mc))
         res.check(ok, R, name + ":copied-then-marked-clean", f.loc, "tables are overwritten by copies and then marked clean on every successful path",
                   "a leaveDirty reset is not followed by a full copy + mark clean")
+        # `leaveDirty` only means "do not zero now".  The copies cover the SOURCE's table sizes; whatever lies beyond them in this context's
+        # table area keeps entries of earlier frames while the copied window restarts the indices: everything must first be declared dirty, so
+        # that the next reset that enlarges the tables zeroes it.
+        ok2 = bool(md) and all(f.must_pass(via_roots=md, targets=[c]) for c in cp if c in f.flow([(b, i + 1) for b, i in f.call_roots("ZSTD_resetCCtx_internal")]))
+        res.check(ok2, R, name + ":marked-dirty-before-the-copies", f.loc, "the whole table area is marked dirty before the tables are copied over",
+                  "%s copies tables over a leaveDirty reset without marking the table area dirty first: a later frame with larger tables finds entries of an "
+                  "earlier frame beyond the copied part, inside its new window - the output then depends on what the context compressed before (and the stale "
+                  "indices can point outside the input)" % name)
     # the tag table: init-once memory + salt, or memset + salt 0
     once = g.call_roots("ZSTD_cwksp_reserve_aligned_init_once")
     adv = g.call_roots("ZSTD_advanceHashSalt")
